@@ -23,4 +23,7 @@ Definition verdict_c07 (h : hierarchy) (bt : bases_table) (c : rcase) : nat :=
   else if (match rrs c with
            | [r] => negb (corrb (rin c) (rimpl c)) && negb (fires r (rin c))
            | _ => false end) then 2
+  (* a chain that, by the model, leaves this type as it is (no rewriter fires at any stage: rw_unchanged_without_trigger)
+     must leave it as it is *)
+  else if corrb (rw_chain h bt (rrs c) (rin c)) (rin c) && negb (corrb (rin c) (rimpl c)) then 2
   else if corrb (rw_chain h bt (rrs c) (rin c)) (rimpl c) then 0 else 1.
